@@ -195,6 +195,23 @@ def nontrivial(cfg, op, o):
     return None
 
 
+# the history of Example C18_nonvacuous (coq/Props/C18.v), replayed on the real contracts in every run
+C18_FEE = 3000000000000000000000007
+CORPUS = [dict(name="C18_nonvacuous",
+               cfg=dict(min_energy=0, min_fee=C18_FEE, quorum=1000, delay=5, period=14400, wpct=3333, block0=10,
+                        bals={1: 3 * C18_FEE, 2: 3 * C18_FEE, 3: 3 * C18_FEE, 4: 0}),
+               ops=[["SetEnergy", 1, 100], ["SetEnergy", 2, 81], ["SetEnergy", 3, 17], ["SetEnergy", 4, 400], ["Sync", 1], ["Sync", 2],
+                    ["Propose", 1, 1, C18_FEE, 0, 0], ["Cancel", 2, 1], ["Cancel", 1, 1], ["Cancel", 1, 1],
+                    ["Propose", 1, 1, C18_FEE, 1, 1000], ["Propose", 2, 1, C18_FEE, 0, 0], ["Propose", 3, 1, C18_FEE, 0, 0],
+                    ["Vote", 1, 2, 0], ["Block", 5], ["Vote", 1, 2, 0], ["Vote", 1, 2, 1], ["Vote", 2, 2, 1],
+                    ["Vote", 3, 3, 2], ["Vote", 4, 4, 0], ["SetEnergy", 1, 50], ["Vote", 1, 3, 0],
+                    ["SetEnergy", 2, 400], ["Vote", 2, 4, 1], ["Vote", 4, 4, 1],
+                    ["Withdraw", 1, 2], ["Block", 14400],
+                    ["Withdraw", 2, 2], ["Withdraw", 1, 2], ["Withdraw", 1, 2],
+                    ["Withdraw", 4, 3], ["Withdraw", 2, 3],
+                    ["Withdraw", 1, 4], ["Withdraw", 3, 4], ["Cancel", 3, 4]])]
+
+
 def _gen(args):
     seed, nops = args
     cfg, trace = sg.gen_history(seed, nops)
@@ -215,6 +232,8 @@ def explore(tier, seed, model_ok=True, focus=False):
     nh, nops = budgets(tier)
     seeds = [seed * 100000 + i for i in range(nh)]
     hist = []
+    for c in CORPUS:
+        hist.append((("corpus", c["name"]), c["cfg"], sg.replay_history(c["cfg"], c["ops"])))
     with concurrent.futures.ProcessPoolExecutor(max_workers=16) as pool:
         for sd, cfg, trace in pool.map(_gen, [(s, nops) for s in seeds], chunksize=4):
             hist.append((sd, cfg, trace))
@@ -231,6 +250,14 @@ def explore(tier, seed, model_ok=True, focus=False):
             kk = nontrivial(cfg, op, o)
             if kk is not None:
                 ex.nontrivial.add(kk)
+                if op[0] == "Block":
+                    for dk in kk:
+                        ex.count(f"decided:status{dk[1]}" + (":tight" if 0 in dk[2:5] or 1 in dk[2:5] or -1 in dk[2:5] else ""))
+                        for nm, v in zip(("half", "third", "quorum"), dk[2:5]):
+                            if v in (0, 1, -1):
+                                ex.count(f"boundary:{nm}:{'exact' if v == 0 else ('above' if v > 0 else 'below')}")
+                elif op[0] in ("Cancel", "Withdraw") and o["ok"]:
+                    ex.count(f"{op[0]}:ok:status{kk[2]}" + (":inexact-split" if kk[5] else ""))
             for key, what in monitor(cfg, op, o):
                 ex.failures.append(dict(key=key, what=what, replay=dict(cfg=cfg, ops=ops[:i + 1], seed=sd, observed=strip(o))))
         terms.append(sg.coq_history(cfg, trace))
